@@ -93,11 +93,13 @@ def remove_empty_metadata(a: ast.AST) -> ast.AST:
             n = self.generic_visit(node)
             assert isinstance(n, ast.Call)
             if isinstance(n.func, ast.Name) and n.func.id == "MetaData":
-                if len(n.args) == 2:
-                    # Only an empty dictionary literal marks an empty block: anything else
-                    # (including a user's own function of this name) is left as it is.
+                if len(n.args) == 2 and len(n.keywords) == 0:
+                    # Only `MetaData(source, {})` with an empty dictionary literal marks an
+                    # empty block: anything else (including a user's own function of this
+                    # name) is left as it is.
                     d = n.args[1]
-                    if isinstance(d, ast.Dict) and len(d.keys) == 0:
+                    is_source = not isinstance(n.args[0], ast.Starred)
+                    if is_source and isinstance(d, ast.Dict) and len(d.keys) == 0:
                         return n.args[0]
             return n
 
